@@ -109,3 +109,70 @@ chk('C18', 'exploration',
     'summaries not claimed',
     'runtime monitoring: recount oracle over generated collections',
     'DESIGN.md section 4 (C18)')
+chk('C01', 'exploration',
+    'Probe tasks record, at the first instruction of do(), the status of every '
+    'hard and soft dependency readable from the environment they were handed '
+    'and compare the update each DONE dependency returned with what is '
+    'readable at that moment, while the real QueueScheduling runs (a) under a '
+    'cooperative schedule controller that serialises the real threads and '
+    'chooses the next one at every lock / condition / queue / thread '
+    'operation (seeded random walk and PCT depth 2-4 over random DAGs with '
+    'every outcome kind and 1-16 workers; every schedule with at most 2 '
+    'preemptions of the 2-3-task shapes) and (b) with the real primitives '
+    'under a 1 us switch interval, delays between critical sections and '
+    'sys.monitoring line-level yield injection.',
+    'schedules are sampled (thousands of distinct traces per run, exhaustive '
+    'only for the small shapes up to 2 preemptions); the controller switches '
+    'at synchronisation operations and probe yield points only',
+    'runtime monitoring: probe at task start + cooperative schedule '
+    'controller (PCT / random walk / bounded DFS) + stress layer with yield '
+    'injection',
+    'DESIGN.md section 4 (C01)')
+chk('C02', 'exploration',
+    'The final status map and the per-task execution counters of every run of '
+    'the real scheduler are compared with a sequential reference scheduler '
+    '(skipped iff a hard dependency failed or was skipped, otherwise executed '
+    'exactly once, DONE/FAILED by what the task returned, malformed results '
+    'FAILED); every generated (graph, failing subset) is executed under at '
+    'least nine controlled schedules over three worker counts and a share in '
+    'the stress layer, so that all schedules of a case are required to give '
+    'the one reference map.',
+    'schedules are sampled; non-final statuses returned by tasks are outside '
+    'the statement',
+    'runtime monitoring: execution counters + final status map vs executable '
+    'reference model under a cooperative schedule controller and stress',
+    'DESIGN.md section 4 (C02)')
+chk('C03', 'exploration',
+    'Under the cooperative controller a deadlock is observed exactly (a '
+    'thread is unfinished and no parked thread is enabled); after schedule() '
+    'returned or raised, the remaining threads are run to quiescence and the '
+    'census of unfinished workers and the content of the work queue are '
+    'taken. Workload: DAGs and cyclic graphs (self loop, 2-cycle, cycle '
+    'behind a DAG, cycle through soft edges), every outcome kind including '
+    'malformed and non-final results, initial environments with DONE / FAILED '
+    '/ SKIPPED entries, 1-16 workers, random-walk and PCT schedules; the same '
+    'census with real primitives under stress, and driver child processes '
+    'that only call schedule() and must exit.',
+    'termination is decided as absence of deadlock at the controller\'s '
+    'scheduling points plus a thread census; wall-clock timeouts alone are '
+    'inconclusive',
+    'runtime monitoring: exact deadlock detection by a cooperative schedule '
+    'controller + thread/queue census + driver processes',
+    'DESIGN.md section 4 (C03)')
+chk('C04', 'exploration',
+    'Histories of 2-6 runs of the real scheduler over an evolving job (tasks '
+    'fail, recover, lose their persisted entry, are newly added), the '
+    'environment carried over the documented way (only DONE entries merged; '
+    'also through the real write_env/read_env files), each run under a '
+    'controlled schedule with a logical clock carried across runs and a share '
+    'in the stress layer with real clocks; after every run invariant I1 (no '
+    'DONE task older than a DONE dependency or with a FAILED/SKIPPED hard '
+    'dependency) and I2 (a DONE task whose transitive dependencies were DONE '
+    'and not re-executed is not executed and its entry digest is unchanged) '
+    'are evaluated from the environment, the probes\' per-run execution '
+    'counters and deep digests.',
+    'histories and schedules are sampled; ties of real clocks accepted (<=)',
+    'runtime monitoring: per-run invariants over recorded histories '
+    '(execution counters, clocks, entry digests) under a cooperative schedule '
+    'controller and stress',
+    'DESIGN.md section 4 (C04)')
